@@ -213,6 +213,50 @@ fn check_matrix(n: usize, rng: &mut Rng, q: &mut Q, rep: &mut Report, with_sets:
     }
 }
 
+/// extrema on matrices containing infinities: the search must return an entry whenever the matrix has a cell,
+/// and agree with reads.  The model sees an order-isomorphic integer encoding (inf = +-10^12).
+fn extrema_special(q: &mut Q, rep: &mut Report) {
+    let vals = [0.0f64, 1.0, f64::INFINITY, f64::NEG_INFINITY];
+    let enc = |v: f64| -> i64 { if v == f64::INFINITY { 1_000_000_000_000 } else if v == f64::NEG_INFINITY { -1_000_000_000_000 } else { v as i64 } };
+    for n in 2..=4usize {
+        let cells_n = tri(n);
+        let total = (vals.len() as u64).pow(cells_n as u32);
+        for code in 0..total {
+            let mut k = code;
+            let cells: Vec<f64> = (0..cells_n).map(|_| { let v = vals[(k % 4) as usize]; k /= 4; v }).collect();
+            let t = taxa(n);
+            let m = DistanceMatrix::new(t.clone(), &cells);
+            let cmd = format!("mx.new\t{}\t{}", enc_taxa(&t), cells.iter().map(|v| enc(*v).to_string()).collect::<Vec<_>>().join(" "));
+            q.push("", cmd.clone(), "ok".into());
+            rep.count("extrema_with_infinities");
+            for (name, r) in [("min", m.min()), ("max", m.max())] {
+                let e = match r {
+                    None => "ok -".to_string(),
+                    Some(((i, j), v)) => format!("ok {i} {j} {}", enc(v)),
+                };
+                q.push(&cmd, format!("mx\t{name}"), e.clone());
+                // first extremum in cell order, from reads
+                let mut best: Option<(usize, f64)> = None;
+                for (k, v) in cells.iter().enumerate() {
+                    best = match best {
+                        None => Some((k, *v)),
+                        Some((_, b)) if (name == "min" && *v < b) || (name == "max" && *v > b) => Some((k, *v)),
+                        b => b,
+                    };
+                }
+                let ok = match (r, best) {
+                    (Some(((i, j), v)), Some((k, b))) => v == b && i * (i - 1) / 2 + j == k && m.get(&t[i], &t[j]).map(|x| *x == v).unwrap_or(false),
+                    (None, None) => true,
+                    _ => false,
+                };
+                if !ok {
+                    rep.oracle("extremum", &format!("{name}:with-infinite-entries"), &format!("{cmd}\nmx\t{name}"), &format!("{e} but cells {cells:?}"));
+                }
+            }
+        }
+    }
+}
+
 /// independent integer inverse of the triangular index (binary search on u128)
 fn int_inverse(k: u64) -> (u64, u64) {
     let (mut lo, mut hi) = (0u128, 1u128 << 33);
@@ -275,15 +319,20 @@ pub fn run(thorough: bool, seed: u64, driver: &str, rep: &mut Report) {
         rep.case(&script, true);
         rep.count("random_sequences");
     }
+    extrema_special(&mut q, rep);
     q.flush(driver, rep);
     // ---- index functions through the hook: the crate's floating-point inverse vs the integer inverse ----
     let mut checked = 0u64;
     let mut test_k = |k: u64, rep: &mut Report| {
-        let (i, j) = phylotree::verif::rowvec_to_tril_index(0, k as usize);
-        let (wi, wj) = int_inverse(k);
         checked += 1;
-        if (i as u64, j as u64) != (wi, wj) {
-            rep.oracle("float-inverse", "differs-from-integer-inverse", &format!("mx\tinv\t{k}"), &format!("({i},{j}) expected ({wi},{wj})"));
+        let (wi, wj) = int_inverse(k);
+        match guarded(move || phylotree::verif::rowvec_to_tril_index(0, k as usize)) {
+            Err(_) => rep.oracle("float-inverse", "panics", &format!("mx\tinv\t{k}"), &format!("rowvec_to_tril_index({k}) panicked, expected ({wi},{wj})")),
+            Ok((i, j)) => {
+                if (i as u64, j as u64) != (wi, wj) {
+                    rep.oracle("float-inverse", "differs-from-integer-inverse", &format!("mx\tinv\t{k}"), &format!("({i},{j}) expected ({wi},{wj})"));
+                }
+            }
         }
         let back = phylotree::verif::tril_to_rowvec_index(0, wi as usize, wj as usize) as u64;
         if back != k || phylotree::verif::tril_to_rowvec_index(0, wj as usize, wi as usize) as u64 != k {
